@@ -8,6 +8,7 @@ package main
 import (
 	"fmt"
 	"math/bits"
+	"strconv"
 	"strings"
 )
 
@@ -450,6 +451,13 @@ func (ts *TermStore) Bin(op Op, a, b *Term) *Term {
 			return ts.Bin(OpLShr, a, ts.Const(w, uint64(bits.TrailingZeros64(b.val))))
 		}
 		if b.op == OpConst && b.val != 0 {
+			// (x*c)/c = x when x*c cannot wrap
+			if a.op == OpMul && a.a[1].op == OpConst && a.a[1].val == b.val {
+				_, hx := ts.ubounds(a.a[0])
+				if ph, pl := bits.Mul64(hx, b.val); ph == 0 && pl <= m {
+					return a.a[0]
+				}
+			}
 			if q := ts.udivByRange(a, b.val); q != nil {
 				return q
 			}
@@ -1002,9 +1010,29 @@ func (t *Term) ref() string {
 	case OpConst:
 		return smtConst(t.w, t.val)
 	case OpVar:
-		return "|in:" + t.name + "|"
+		return "|" + smtVarName(t) + "|"
 	}
 	return fmt.Sprintf("t%d", t.id)
+}
+
+// smtVarName: the solver-side symbol of an input. The width is part of the symbol: one session
+// (global declarations) sees paths on which an input of the same name has different types.
+func smtVarName(t *Term) string {
+	if t.w == 64 {
+		return "in:" + t.name
+	}
+	return fmt.Sprintf("in:%s@%d", t.name, t.w)
+}
+
+// inputOfSMT inverts smtVarName.
+func inputOfSMT(sym string) string {
+	sym = strings.TrimPrefix(sym, "in:")
+	if i := strings.LastIndexByte(sym, '@'); i >= 0 {
+		if _, err := strconv.Atoi(sym[i+1:]); err == nil {
+			return sym[:i]
+		}
+	}
+	return sym
 }
 
 // body of the definition of t in terms of refs of its children
